@@ -402,7 +402,7 @@ QUEUERUN_BUDGET = {"quick": 320, "thorough": 4800}
 @register("C18")
 def check_C18(tier: str, seed: int) -> int:
     v = fw.Verdict("C18", tier, seed, "proof")
-    ps = fw.ProofStatus("C18", ["Properties.C18"])
+    ps = fw.ProofStatus("C18", ["Properties.C18", "Properties.C18Order"])
     n_q, steps_q = QUEUE_BUDGET[tier]
     ql = layers.hist_layer(seed, n_q, steps_q, QUEUE_OPTS)
     ok1 = use_hist_layer(v, "C18", ql, ["C18"])
